@@ -109,6 +109,8 @@ def find(tree, types, value, a, b):
 
 
 def check(rec, data, a, b, types, value, w, sig_extra="", profile=None):
+    if sig_extra:
+        w = dict(w, sig_extra=sig_extra)  # the replay must arrive at the same signature
     rec.count("evaluations")
     rec.mark("states", data)
     ok, tree = rec.guard("C11.total", w, len(data), md().scan, data)
@@ -280,7 +282,7 @@ def run_unit(unit, rec):
 def replay(w, rec):
     if w.get("kind") == "inst":
         a, b = w["span"]
-        check(rec, w["data"], a, b, tuple(w["types"]), w["value"], w, sig_extra="")
+        check(rec, w["data"], a, b, tuple(w["types"]), w["value"], w, sig_extra=w.get("sig_extra", ""))
     elif w.get("kind") in ("pe-nested", "pe-pair", "pe-lfanew"):
         run_unit(("pe",), rec)
     elif w.get("kind") == "pe":
